@@ -288,6 +288,13 @@ func runRun(t *testing.T, s *Scenario) (evs []wire.Event) {
 		if boolExtra(s, "cancel_at_start") { // the caller's context is already cancelled when the request starts
 			w.LogEvent("Cancel")
 			cancel()
+		} else if s.CancelUs > 0 && boolExtra(s, "deadline") {
+			// the caller's context carries a DEADLINE (it ends with context.DeadlineExceeded, a timeout-typed error) instead of being cancelled
+			var c2 context.CancelFunc
+			ctx, c2 = context.WithTimeout(ctx, time.Duration(s.CancelUs)*time.Microsecond)
+			defer c2()
+			tm := time.AfterFunc(time.Duration(s.CancelUs)*time.Microsecond, func() { w.LogEvent("Cancel") })
+			defer tm.Stop()
 		} else if s.CancelUs > 0 {
 			tm := time.AfterFunc(time.Duration(s.CancelUs)*time.Microsecond, func() {
 				w.LogEvent("Cancel")
